@@ -58,7 +58,14 @@ class Body:
         raise Unsupported(f'body.{name}')
 
     def _run(self, eng, a, k):
-        stack, stdout, ctx = a
+        # MichelsonInstruction.execute(stack, stdout, context): arguments passed positionally or by keyword are the same call
+        names = ('stack', 'stdout', 'context')
+        if len(a) > 3 or set(k) - set(names[len(a):]):
+            raise Unsupported('call shape of the body\'s execute')
+        vals = dict(zip(names, a), **k)
+        if set(vals) != set(names):
+            raise Unsupported('call shape of the body\'s execute')
+        stack, stdout, ctx = vals['stack'], vals['stdout'], vals['context']
         self.log.append(('execute', stack is self.stack, ctx is self.ctx))
         self.stack.version += 1          # arbitrary in-place effects before the outcome
         self.ctx.version += 1
